@@ -805,11 +805,15 @@ def run_engine(reqs, release, jobs=16):
     from concurrent.futures import ThreadPoolExecutor
     if len(reqs) < 64:
         return run_prog(reqs, release=release, watchdog_ms=4000)
-    n = (len(reqs) + jobs - 1) // jobs
-    chunks = [reqs[i:i + n] for i in range(0, len(reqs), n)]
+    # round robin, so that a family of hanging cases (4 s watchdog each) spreads over all processes
+    idx = [list(range(j, len(reqs), jobs)) for j in range(jobs)]
     with ThreadPoolExecutor(max_workers=jobs) as ex:
-        parts = list(ex.map(lambda ch: run_prog(ch, release=release, watchdog_ms=4000), chunks))
-    return [r for p in parts for r in p]
+        parts = list(ex.map(lambda ix: run_prog([reqs[i] for i in ix], release=release, watchdog_ms=4000), idx))
+    out = [None] * len(reqs)
+    for ix, part in zip(idx, parts):
+        for i, r in zip(ix, part):
+            out[i] = r
+    return out
 
 
 def agree(engine, model):
